@@ -4,25 +4,28 @@
 
   OBLIGATIONS: C06_identity_default_Translation C06_identity_default_EulerRotation
     C06_identity_default_IsotropicScaling C06_identity_default_AnisotropicScaling C06_identity_default_Shearing
-    C06_identity_default_QuaternionRotation_refuted C06_identity_default_QuaternionRotation_fixed
-    C06_identity_default_HomogeneousTransform_refuted C06_identity_default_HomogeneousTransform_fixed
+    C06_identity_default_QuaternionRotation C06_identity_default_HomogeneousTransform
     C06_identity_default_composite C06_identity_default_nonrigid
     C06_views_agree C06_views_agree_matrix
     C06_views_agree_points C06_views_agree_points_world C06_views_agree_disp C06_views_agree_disp_linear
     C06_disp_linear_foreign_refuted
     C06_sequential_order C06_sequential_order_tensor
-    C06_multilevel_sum_partial C06_multilevel_sum_refuted C06_multilevel_linear_sums_matrices
+    C06_multilevel_sum C06_multilevel_members_unchanged
     C06_warp C06_warp_value C06_nonrigid_grid_points_agree C06_nonrigid_grid_mode_refuted
     C06_disp_nonrigid_other_convention_refuted
 
-  Partial (see FINDINGS_C06.md): the statement "identity at construction" fails for QuaternionRotation and
-  HomogeneousTransform (refuted with the witness, proved for the repaired default); "multi-level adds
-  displacements" fails for the all-linear branch (refuted; the non-linear branch is proved); `disp(grid)` of a plain
-  linear transform on a grid of another domain is not the world map (refuted; proved for grids of the same domain and
-  for every composite on any grid). `matrix()` raised for the batched translation form (F-08a); that was repaired in
-  /repo (8afe377), the model follows the repaired code and `C06_views_agree_matrix` covers all three forms. The default rounding to 12 decimals inside `grid_transform_points` is exercised by the
-  correspondence only (theorems take `rnd = id`); non-rigid `disp(grid)` on foreign grids and the `grid=True`
-  evaluation on lattices of another domain are covered by correspondence + oracle only.
+  Repaired in /repo while this check was built, model and theorems follow the repaired code (positive theorems):
+  F-06a QuaternionRotation default (4602d00), F-06d HomogeneousTransform default (5a1bee8), F-06b MultiLevelTransform of
+  linear members (23e4cf3), F-08a batched translation matrix (8afe377), F-20a no rounding in CompositeTransform.disp
+  (1b0b194; `C06_views_agree_disp` is now about the code as it runs, not about `rnd = id`).
+  Still refuted / partial (known findings, FINDINGS_C06.md): F-06e `disp(grid)` of a plain linear transform on a grid of
+  another domain (`C06_disp_linear_foreign_refuted`; proved for the same domain and for every composite), F-06f
+  `ImageTransformer` evaluates non-rigid transforms with `grid=True` on any target lattice
+  (`C06_nonrigid_grid_mode_refuted`; `C06_warp` holds for every cube map, `C06_nonrigid_grid_points_agree` on the own
+  lattice), F-06g non-rigid `disp(grid)` with the other `align_corners` (`C06_disp_nonrigid_other_convention_refuted`).
+  The default rounding to 12 decimals inside `ImageTransformer.__init__` (`target.transform_points`) is exercised by the
+  correspondence only (theorem takes `rnd = id`); non-rigid `disp(grid)` on foreign grids of the same convention is covered
+  by correspondence + oracle only.
 -/
 import Deepali.Proofs.Transforms
 import Deepali.Proofs.TransformsViews
@@ -124,51 +127,29 @@ theorem C06_identity_default_composite (ms : List (Member d K)) (g : Option (Lat
 
 end algebra
 
-/-- the statement for `QuaternionRotation` as constructed by the current code … -/
-def C06_identity_default_QuaternionRotation_Statement : Prop :=
-  ∀ x : Vec 3 ℚ, (quaternionTensor false (defaultQuaternion : Vec 4 ℚ) 1 (1 / 1000000000000)).apply x = x
-
-/-- … is false: `reset_parameters` writes `[0, 0, 0, 1]`, which `quaternion_to_rotation_matrix` reads as
-    `(w, x, y, z) = (0, 0, 0, 1)` — a rotation by 180° about z; the point (1, 0, 0) goes to (−1, 0, 0). -/
-theorem C06_identity_default_QuaternionRotation_refuted : ¬ C06_identity_default_QuaternionRotation_Statement := by
-  intro h
-  have := congrFun (h (affVec3 1 0 0)) 0
-  simp [quaternionTensor, invertRotation, quaternionToRotationMatrix, quaternionToRotationMatrixN, normalizeQuaternion,
-    korniaClampMin, defaultQuaternion, affVec4, affVec3, affMat3, H.apply, Mat.mulVec, sumFin] at this
-  norm_num at this
-
 section ordered
 variable {K : Type} [Field K] [LinearOrder K] [IsStrictOrderedRing K]
 
-/-- with the repaired default `[1, 0, 0, 0]` (`w = 1`) the quaternion rotation is the identity. -/
-theorem C06_identity_default_QuaternionRotation_fixed (eps : K) (heps : eps ≤ 1) (x : Vec 3 K) :
-    (quaternionTensor false (affVec4 (1 : K) 0 0 0) 1 eps).apply x = x := by
+/-- `QuaternionRotation`: `reset_parameters` writes (w, x, y, z) = (1, 0, 0, 0) (`‖q‖ = 1`), the identity rotation. -/
+theorem C06_identity_default_QuaternionRotation (eps : K) (heps : eps ≤ 1) (x : Vec 3 K) :
+    (quaternionTensor false (defaultQuaternion : Vec 4 K) 1 eps).apply x = x := by
   have hc : korniaClampMin (1 : K) eps = 1 := korniaClampMin_of_le heps
   funext i
   fin_cases i <;>
     simp [quaternionTensor, invertRotation, quaternionToRotationMatrix, quaternionToRotationMatrixN,
-      normalizeQuaternion, hc, affVec4, affVec3, affMat3, H.apply, Mat.mulVec, sumFin_eq, Fin.sum_univ_three]
+      normalizeQuaternion, hc, defaultQuaternion, affVec4, affVec3, affMat3, H.apply, Mat.mulVec, sumFin_eq,
+      Fin.sum_univ_three]
 
 end ordered
-
-/-- the statement for `HomogeneousTransform` … -/
-def C06_identity_default_HomogeneousTransform_Statement : Prop :=
-  ∀ x : Vec 2 ℚ, (homogeneousTensor false (defaultHomMatrix : Mat 2 ℚ) (fun _ => 0)).apply x = x
-
-/-- … is false: the class inherits the all-zero default, i.e. the map `x ↦ 0`. -/
-theorem C06_identity_default_HomogeneousTransform_refuted : ¬ C06_identity_default_HomogeneousTransform_Statement := by
-  intro h
-  have := congrFun (h (affVec2 1 0)) 0
-  simp [homogeneousTensor, defaultHomMatrix, H.apply, Mat.mulVec, sumFin, Vec.add, affVec2] at this
 
 section algebra2
 variable {K : Type} [Field K] {d : Nat}
 
-/-- with the repaired default `[I | 0]` it is the identity. -/
-theorem C06_identity_default_HomogeneousTransform_fixed (x : Vec d K) :
-    (homogeneousTensor false (Mat.one : Mat d K) (fun _ => 0)).apply x = x := by
-  simp only [homogeneousTensor, Bool.false_eq_true, if_false, H.apply, one_mulVec]
-  funext i; simp [Vec.add]
+/-- `HomogeneousTransform`: `reset_parameters` writes `[I | 0]`. -/
+theorem C06_identity_default_HomogeneousTransform (x : Vec d K) :
+    (homogeneousTensor false (defaultHomMatrix : Mat d K) defaultHomOffset).apply x = x := by
+  simp only [homogeneousTensor, Bool.false_eq_true, if_false, H.apply, defaultHomMatrix, one_mulVec]
+  funext i; simp [Vec.add, defaultHomOffset]
 
 /-! ## Matrix view -/
 
@@ -205,48 +186,49 @@ theorem C06_sequential_order (ms : List (Member d K)) (g : Option (Lat d)) (x : 
 
 /-! ## Multi-level sum -/
 
-/-- `MultiLevelTransform` adds the members' displacements — proved for the branches where it does: no member,
-    or at least one non-linear member. -/
-theorem C06_multilevel_sum_partial (ms : List (Member d K)) (x : Vec d K)
-    (h : ms = [] ∨ allLinear ms = false) : mlForward ms none x = mlSpec ms x := by
-  rcases h with h | h
-  · subst h
-    simp only [mlForward, List.isEmpty_nil, if_true, mlSpec, List.foldl_nil]
+/-- `MultiLevelTransform` adds the displacements of its members, `y = x + Σᵢ uᵢ(x)`, for member lists of any length and
+    in every branch: no member, all members linear (composite matrix `Σ Aᵢ − (n−1)·I | Σ tᵢ`), or some member non-linear. -/
+theorem C06_multilevel_sum (ms : List (Member d K)) (x : Vec d K) : mlForward ms none x = mlSpec ms x := by
+  have hlin : ∀ (ms : List (Member d K)) (u : Vec d K), allLinear ms = true →
+      ms.foldl (fun u t => u.add ((t.forward none x).sub x)) u
+        = (linearTensors ms).foldl (fun u t => u.add ((t.apply x).sub x)) u := by
+    intro ms
+    induction ms with
+    | nil => intro u _; rfl
+    | cons m ms ih =>
+        intro u h
+        cases m with
+        | linear hm =>
+            have h' : allLinear ms = true := by simpa [allLinear, Member.isLinear] using h
+            have e : (Member.linear hm).forward none x = hm.apply x := rfl
+            simp only [List.foldl_cons, linearTensors, e]
+            exact ih _ h'
+        | nonlin fP fG => simp [allLinear, Member.isLinear] at h
+  unfold mlForward mlSpec
+  split
+  · next he =>
+    have : ms = [] := by simpa using he
+    subst this
     funext i; simp [Vec.add]
-  · have hne : ms.isEmpty = false := by
-      cases ms with
-      | nil => simp [allLinear] at h
-      | cons _ _ => rfl
-    simp only [mlForward, hne, h, Bool.false_eq_true, if_false, mlSpec, mlForwardLoop_eq]
+  · split
+    · next hl => rw [mlTensor_apply, hlin ms _ hl]
+    · rw [mlForwardLoop_eq]
 
-/-- what the all-linear branch computes instead: the *sum of the homogeneous matrices*, i.e. the stated sum of
-    displacements plus `(k − 1)·x` for `k` members (`2x + t` for two translations-as-matrices). -/
-theorem C06_multilevel_linear_sums_matrices (A B : Mat d K) (s t : Vec d K) (x : Vec d K) :
-    mlForward [.linear (.hom A s), .linear (.hom B t)] none x
-      = (mlSpec [.linear (.hom A s), .linear (.hom B t)] x).add x := by
-  simp only [mlForward, List.isEmpty_cons, allLinear, List.all_cons, Member.isLinear, List.all_nil, Bool.and_self,
-    if_true, Bool.false_eq_true, if_false, linearTensors, mlTensor, H.toHom, mlSpec, List.foldl_cons, List.foldl_nil,
-    Member.forward]
-  funext i
-  simp only [H.apply, Mat.add, Vec.add, Vec.sub, Mat.mulVec, sumFin_eq, Nat.cast_zero]
-  simp only [add_mul, Finset.sum_add_distrib]
-  ring
+/-- the composite matrix is computed out of place: it is a function of the members' tensors only, so evaluating the
+    composite leaves the members' parameters as they were (in the model, tensors are values; the implementation-side
+    statement — no write into the first member — is checked by the oracle `ml_mutation`), and a single linear member
+    is returned unchanged as a map. -/
+theorem C06_multilevel_members_unchanged (h : H d K) (x : Vec d K) :
+    (mlTensor [h]).apply x = h.apply x ∧ mlForward [.linear h] none x = h.apply x := by
+  have e : (mlTensor [h]).apply x = h.apply x := by
+    simp only [mlTensor, List.foldl_nil, List.isEmpty_nil, if_true]
+    exact toHom_apply h x
+  refine ⟨e, ?_⟩
+  simp only [mlForward, List.isEmpty_cons, Bool.false_eq_true, if_false, allLinear, List.all_cons, Member.isLinear,
+    List.all_nil, Bool.and_self, if_true, linearTensors]
+  exact e
 
 end algebra2
-
-/-- the statement "a multi-level composite adds the displacements of its members" … -/
-def C06_multilevel_sum_Statement : Prop :=
-  ∀ (ms : List (Member 1 ℚ)) (x : Vec 1 ℚ), mlForward ms none x = mlSpec ms x
-
-/-- … is false for linear members: two identity transforms give `2x` (witness `x = 1`). -/
-theorem C06_multilevel_sum_refuted : ¬ C06_multilevel_sum_Statement := by
-  intro h
-  have := h [.linear (.aff Mat.one), .linear (.aff Mat.one)] (fun _ => 1)
-  simp only [mlForward, List.isEmpty_cons, allLinear, List.all_cons, Member.isLinear, List.all_nil, Bool.and_self,
-    if_true, Bool.false_eq_true, if_false, linearTensors, mlTensor, H.toHom, mlSpec, List.foldl_cons, List.foldl_nil,
-    Member.forward] at this
-  have := congrFun this 0
-  simp [H.apply, Mat.add, Mat.one, Vec.add, Vec.sub, Mat.mulVec, sumFin] at this
 
 section ordered2
 variable {K : Type} [Field K] [LinearOrder K] [IsStrictOrderedRing K] [FloorRing K] {d : Nat}
@@ -305,7 +287,7 @@ theorem C06_views_agree_disp (T : Vec d K → Vec d K) {tg g : Grid d K} {n : Fi
     (hn : g.HasSize n) (h2 : ∀ i, 2 ≤ n i) (htc : tg.CornersOK (transformAxes tg)) (sameDomain : Bool)
     (hdom : sameDomain = true → ∀ p, fromGrid tg .world (toGrid tg (transformAxes tg) p)
         = fromGrid g .world (toGrid g (Axes.fromAlignCorners g.alignCorners) p)) (j : Vec d K) :
-    dispComposite T tg g n sameDomain id j
+    dispComposite T tg g n sameDomain j
       = (fromGrid g (Axes.fromAlignCorners g.alignCorners) (toGrid g .world (worldMap tg T (fromGrid g .world j)))).sub
           (fromGrid g (Axes.fromAlignCorners g.alignCorners) j) :=
   dispComposite_eq T ht hg hn h2 htc sameDomain hdom j
@@ -502,7 +484,7 @@ example : exampleGrid.Valid ∧ exampleGrid2.Valid ∧ exampleGrid.HasSize ![5, 
 
 /-- a non-trivial sequential composite: rotation by `(c, s) = (3/5, 4/5)` then translation `(1, 2)` maps `(1, 0)` to
     `(8/5, 14/5)`; as a multi-level composite of a non-linear and a linear member the hypotheses of
-    `C06_multilevel_sum_partial` hold. -/
+    `C06_multilevel_sum` are met (it has none beyond the member list). -/
 example : seqForward [.linear (eulerTensor2 false ((3 : ℚ) / 5) (4 / 5)), .linear (translationTensor false (affVec2 1 2))]
     none (affVec2 1 0) 0 = 8 / 5 := by
   simp [seqForward, allLinear, Member.isLinear, linearTensors, seqTensor, eulerTensor2, translationTensor, translationH,
